@@ -4,16 +4,20 @@ package synchronizer
 // that view).  Injected with `go test -overlay`; nothing in /repo is changed.
 //
 // Streams:
-//   coll  — timeoutCollector.add / deleteOldViews on operation sequences (exhaustive small scope,
-//           random long sequences, n in 1..13)
-//   sync  — Synchronizer.OnRemoteTimeout on a real synchronizer (real keys, real Authority) fed with
-//           sequences of honest and Byzantine timeout messages; the list handed to
-//           RemoteTimeoutRule, the sync info it returns, its verdict at a second replica's
-//           Authority, the view and the bag after every call are recorded.
+//   coll  — timeoutCollector.add / deleteOldViews on operation sequences (exhaustive small scope over
+//           2 and 3 views, random long sequences, n in 1..13, non-contiguous / large ids, views up
+//           to 2^64-1, membership growing between adds)
+//   sync  — Synchronizer.OnRemoteTimeout / OnLocalTimeout on a real synchronizer (real keys, real
+//           Authority; ECDSA, EdDSA, BLS12; signature cache off/on; contiguous and large
+//           non-contiguous ids; NewView sends failing; membership growing mid-run) fed with sequences
+//           of honest and Byzantine timeout messages; the list handed to RemoteTimeoutRule, the
+//           sync info it returns, its verdict at a second replica's Authority, the view and the
+//           bag after every call are recorded.
 // The property's own oracle (a per-view tally of correctly signed timeouts from distinct senders,
 // computed from how the harness built each message) is evaluated on the Go outputs.
 
 import (
+	"errors"
 	"fmt"
 	"io"
 	"sort"
@@ -58,7 +62,7 @@ const (
 	c08VForeign   = 1 // another replica's genuine signature over the view, attached unchanged
 	c08VRelabel   = 2 // another replica's genuine signature relabelled with ID
 	c08VOtherView = 3 // ID's genuine signature over view+1
-	c08VGarbage   = 4 // random bytes labelled ID
+	c08VGarbage   = 4 // bytes that are no signature of the view (random bytes; BLS: a signature of an unrelated message) labelled ID
 	c08VAbsent    = 5 // nil
 	c08VTwo       = 6 // ID's and another replica's genuine signatures in one object
 )
@@ -78,54 +82,115 @@ const (
 	c08QNone    = 3 // sync info without QC
 )
 
+const c08JunkView = 424242 // BLS "garbage": a genuine signature over this unrelated view
+
+// one step of a run: a timeout message, the replica's own local timeout, or a membership change
 type c08Msg struct {
-	ID     int    `json:"id"`
+	Op     string `json:"op,omitempty"` // "" message / "local" OnLocalTimeout / "grow" AddReplica up to GrowTo members
+	GrowTo int    `json:"grow_to,omitempty"`
+	ID     uint64 `json:"id"`
 	View   uint64 `json:"view"`
 	VKind  int    `json:"vsig"`
-	Who    int    `json:"who"`
+	Who    uint64 `json:"who"`
 	MKind  int    `json:"msig"`
 	QKind  int    `json:"qc"`
 	TCKind int    `json:"tc"` // sender's sync info: 0 no TC, 1 valid TC for TCView, 2 sub-quorum TC for TCView
 	TCView uint64 `json:"tcview"`
 }
 
-type c08World struct {
-	t      *testing.T
-	n      int
-	q      int
-	agg    bool
-	scheme string
-	gsch   string // Gallina scheme constructor
-	set    testutil.EssentialsSet
-	qcB1   hotstuff.QuorumCert
-	forged hotstuff.QuorumCert
-	cache  map[c08Msg]hotstuff.TimeoutMsg
-	tcs    map[[2]uint64]hotstuff.TimeoutCert
+type c08Sender struct {
+	*testutil.MockSender
+	fail bool
 }
 
-func c08NewWorld(t *testing.T, n int, agg bool, scheme string) *c08World {
+func (s *c08Sender) NewView(id hotstuff.ID, msg hotstuff.SyncInfo) error {
+	if s.fail {
+		return errors.New("c08: replica not found")
+	}
+	return s.MockSender.NewView(id, msg)
+}
+
+type c08World struct {
+	t        *testing.T
+	ids      []uint64 // ids[0] is the replica under test, ids[1] the verifying replica
+	members  int      // how many of ids (a prefix) are configured at those two replicas
+	initial  int
+	agg      bool
+	scheme   string
+	gsch     string // Gallina scheme constructor
+	cacheSz  uint
+	sendFail bool
+	ess      []*testutil.Essentials
+	infos    []hotstuff.ReplicaInfo
+	b1       *hotstuff.Block
+	qcB1     hotstuff.QuorumCert
+	hasB1    bool
+	forged   hotstuff.QuorumCert
+	cache    map[c08Msg]hotstuff.TimeoutMsg
+	tcs      map[[3]uint64]hotstuff.TimeoutCert
+}
+
+func (w *c08World) n() int { return len(w.ids) }
+func (w *c08World) q() int { return hotstuff.QuorumSize(w.members) }
+func (w *c08World) pos(id uint64) int {
+	for i, x := range w.ids {
+		if x == id {
+			return i
+		}
+	}
+	return -1
+}
+func (w *c08World) member(id uint64) bool { p := w.pos(id); return p >= 0 && p < w.members }
+func (w *c08World) bls() bool             { return w.scheme == crypto.NameBLS12 }
+
+func c08NewWorld(t *testing.T, ids []uint64, initial int, agg bool, scheme string, cacheSz uint, sendFail bool) *c08World {
 	var opts []core.RuntimeOption
 	if agg {
 		opts = append(opts, core.WithAggregateQC())
 	}
-	w := &c08World{t: t, n: n, q: hotstuff.QuorumSize(n), agg: agg, scheme: scheme,
-		cache: map[c08Msg]hotstuff.TimeoutMsg{}, tcs: map[[2]uint64]hotstuff.TimeoutCert{}}
+	if cacheSz > 0 {
+		opts = append(opts, core.WithCache(cacheSz))
+	}
+	w := &c08World{t: t, ids: ids, members: initial, initial: initial, agg: agg, scheme: scheme, cacheSz: cacheSz, sendFail: sendFail,
+		cache: map[c08Msg]hotstuff.TimeoutMsg{}, tcs: map[[3]uint64]hotstuff.TimeoutCert{}}
 	switch scheme {
 	case crypto.NameECDSA:
 		w.gsch = "Ecdsa"
 	case crypto.NameEDDSA:
 		w.gsch = "Eddsa"
+	case crypto.NameBLS12:
+		w.gsch = "Bls12"
 	default:
 		t.Fatalf("unsupported scheme %s", scheme)
 	}
-	w.set = testutil.NewEssentialsSet(t, uint(n), scheme, opts...)
-	b1 := hotstuff.NewBlock(hotstuff.GetGenesis().Hash(),
-		hotstuff.NewQuorumCert(nil, 0, hotstuff.GetGenesis().Hash()), &clientpb.Batch{}, 1, 1)
-	for _, e := range w.set {
-		e.Blockchain().Store(b1)
+	for _, id := range ids {
+		e := testutil.WireUpEssentials(t, hotstuff.ID(id), scheme, opts...)
+		w.ess = append(w.ess, e)
+		w.infos = append(w.infos, hotstuff.ReplicaInfo{ID: hotstuff.ID(id), PubKey: e.RuntimeCfg().PrivateKey().Public(),
+			Metadata: e.RuntimeCfg().ConnectionMetadata()})
 	}
-	if n >= 2 {
-		w.qcB1 = testutil.CreateQC(t, b1, w.set.Signers()...)
+	for i, e := range w.ess {
+		limit := len(ids)
+		if i < 2 {
+			limit = initial
+		}
+		for j := 0; j < limit; j++ {
+			r := w.infos[j]
+			e.RuntimeCfg().AddReplica(&r)
+		}
+		for _, o := range w.ess {
+			if o != e {
+				e.MockSender().AddBlockchain(o.Blockchain())
+			}
+		}
+	}
+	w.b1 = hotstuff.NewBlock(hotstuff.GetGenesis().Hash(),
+		hotstuff.NewQuorumCert(nil, 0, hotstuff.GetGenesis().Hash()), &clientpb.Batch{}, 1, 1)
+	for _, e := range w.ess {
+		e.Blockchain().Store(w.b1)
+	}
+	if len(ids) >= 2 && initial == len(ids) {
+		w.qcB1, w.hasB1 = c08CreateQC(t, w), true
 	}
 	var h hotstuff.Hash
 	for i := range h {
@@ -135,53 +200,106 @@ func c08NewWorld(t *testing.T, n int, agg bool, scheme string) *c08World {
 	return w
 }
 
+func c08CreateQC(t *testing.T, w *c08World) hotstuff.QuorumCert {
+	pcs := make([]hotstuff.PartialCert, 0, len(w.ess))
+	for _, e := range w.ess {
+		pc, err := e.Authority().CreatePartialCert(w.b1)
+		if err != nil {
+			t.Fatal(err)
+		}
+		pcs = append(pcs, pc)
+	}
+	qc, err := w.ess[0].Authority().CreateQuorumCert(w.b1, pcs)
+	if err != nil {
+		t.Fatal(err)
+	}
+	return qc
+}
+
+// grow configures the first k ids at the replica under test and at the verifying replica
+func (w *c08World) grow(k int) {
+	for j := w.members; j < k; j++ {
+		for i := 0; i < 2 && i < len(w.ess); i++ {
+			r := w.infos[j]
+			w.ess[i].RuntimeCfg().AddReplica(&r)
+		}
+	}
+	if k > w.members {
+		w.members = k
+	}
+}
+
 func (w *c08World) relabel(sig hotstuff.QuorumSignature, id hotstuff.ID) hotstuff.QuorumSignature {
 	switch s := sig.(type) {
 	case crypto.Multi[*crypto.ECDSASignature]:
 		return crypto.NewMulti(crypto.RestoreECDSASignature(s[0].ToBytes(), id))
 	case crypto.Multi[*crypto.EDDSASignature]:
 		return crypto.NewMulti(crypto.RestoreEDDSASignature(s[0].ToBytes(), id))
+	case *crypto.BLS12AggregateSignature:
+		bf := crypto.Bitfield{}
+		bf.Add(id)
+		r, err := crypto.RestoreBLS12AggregateSignature(s.ToBytes(), bf)
+		if err != nil {
+			w.t.Fatal(err)
+		}
+		return r
 	}
 	w.t.Fatalf("unexpected signature type %T", sig)
 	return nil
 }
 
-func (w *c08World) garbage(id hotstuff.ID) hotstuff.QuorumSignature {
+// junkSigner: who really signs the BLS stand-in for garbage labelled id
+func (w *c08World) junkSigner(id uint64) uint64 {
+	if w.pos(id) >= 0 {
+		return id
+	}
+	return w.ids[0]
+}
+
+func (w *c08World) garbage(id uint64) hotstuff.QuorumSignature {
+	if w.bls() {
+		return w.relabel(w.sign(w.junkSigner(id), hotstuff.View(c08JunkView).ToBytes()), hotstuff.ID(id))
+	}
 	junk := make([]byte, 64)
 	for i := range junk {
 		junk[i] = byte(7*i + 1)
 	}
 	if w.scheme == crypto.NameECDSA {
-		return crypto.NewMulti(crypto.RestoreECDSASignature(junk, id))
+		return crypto.NewMulti(crypto.RestoreECDSASignature(junk, hotstuff.ID(id)))
 	}
-	return crypto.NewMulti(crypto.RestoreEDDSASignature(junk, id))
+	return crypto.NewMulti(crypto.RestoreEDDSASignature(junk, hotstuff.ID(id)))
 }
 
-func (w *c08World) sign(who int, msg []byte) hotstuff.QuorumSignature {
-	sig, err := w.set[who-1].Authority().Sign(msg)
+func (w *c08World) gGarbage(id uint64) string {
+	if w.bls() {
+		return fmt.Sprintf("(Some (G Bls12 %d %d (MView %d)))", id, w.junkSigner(id), c08JunkView)
+	}
+	return fmt.Sprintf("(Some (X %s %d))", w.gsch, id)
+}
+
+func (w *c08World) sign(who uint64, msg []byte) hotstuff.QuorumSignature {
+	sig, err := w.ess[w.pos(who)].Authority().Sign(msg)
 	if err != nil {
 		w.t.Fatal(err)
 	}
 	return sig
 }
 
-func (w *c08World) member(id int) bool { return id >= 1 && id <= w.n }
-
-// senderTC builds the TC of the sender's sync info
+// senderTC builds the TC of the sender's sync info from the first q (kind 1) or q-1 (kind 2) replicas
 func (w *c08World) senderTC(kind int, view uint64) hotstuff.TimeoutCert {
-	k := [2]uint64{uint64(kind), view}
+	k := [3]uint64{uint64(kind), view, uint64(w.q())}
 	if tc, ok := w.tcs[k]; ok {
 		return tc
 	}
-	m := w.q
+	m := w.q()
 	if kind == 2 {
-		m = w.q - 1
+		m = w.q() - 1
 	}
 	sigs := make([]hotstuff.QuorumSignature, 0, m)
-	for i := 1; i <= m; i++ {
-		sigs = append(sigs, w.sign(i, hotstuff.View(view).ToBytes()))
+	for i := 0; i < m; i++ {
+		sigs = append(sigs, w.sign(w.ids[i], hotstuff.View(view).ToBytes()))
 	}
-	sig, err := w.set[0].Authority().Combine(sigs...)
+	sig, err := w.ess[0].Authority().Combine(sigs...)
 	if err != nil {
 		w.t.Fatalf("senderTC: %v", err)
 	}
@@ -220,10 +338,10 @@ func (w *c08World) build(m c08Msg) hotstuff.TimeoutMsg {
 	case c08VOtherView:
 		tm.ViewSignature = w.sign(m.ID, (view + 1).ToBytes())
 	case c08VGarbage:
-		tm.ViewSignature = w.garbage(id)
+		tm.ViewSignature = w.garbage(m.ID)
 	case c08VAbsent:
 	case c08VTwo:
-		s, err := w.set[0].Authority().Combine(w.sign(m.ID, view.ToBytes()), w.sign(m.Who, view.ToBytes()))
+		s, err := w.ess[0].Authority().Combine(w.sign(m.ID, view.ToBytes()), w.sign(m.Who, view.ToBytes()))
 		if err != nil {
 			w.t.Fatal(err)
 		}
@@ -234,7 +352,7 @@ func (w *c08World) build(m c08Msg) hotstuff.TimeoutMsg {
 		tm.MsgSignature = w.sign(m.ID, tm.ToBytes())
 	case c08MAbsent:
 	case c08MGarbage:
-		tm.MsgSignature = w.garbage(id)
+		tm.MsgSignature = w.garbage(m.ID)
 	case c08MForeign:
 		tm.MsgSignature = w.sign(m.Who, tm.ToBytes())
 	case c08MStale:
@@ -246,27 +364,36 @@ func (w *c08World) build(m c08Msg) hotstuff.TimeoutMsg {
 	return tm
 }
 
-// wellFormed tells whether the specification can be built at all (who must be a member etc.)
+// wellFormed tells whether the specification can be built at all (who must hold a key etc.)
 func (w *c08World) wellFormed(m c08Msg) bool {
+	if m.Op != "" {
+		return true
+	}
 	needID := m.VKind == c08VHonest || m.VKind == c08VOtherView || m.VKind == c08VTwo ||
 		m.MKind == c08MHonest || m.MKind == c08MStale
-	if needID && !w.member(m.ID) {
+	if needID && w.pos(m.ID) < 0 {
 		return false
 	}
 	needWho := m.VKind == c08VForeign || m.VKind == c08VRelabel || m.VKind == c08VTwo || m.MKind == c08MForeign
-	if needWho && (!w.member(m.Who) || m.Who == m.ID) {
+	if needWho && (w.pos(m.Who) < 0 || m.Who == m.ID) {
 		return false
 	}
-	if m.QKind == c08QBlock1 && (w.n < 2 || !w.agg) {
+	if (m.VKind == c08VOtherView || m.MKind == c08MStale) && m.View == ^uint64(0) {
 		return false
 	}
-	if m.TCKind != 0 && (m.TCView == 0 || w.q < 3) {
+	if w.bls() && (m.ID == 0 || m.ID > 4096) {
+		return false // a bitfield is as long as its largest id
+	}
+	if m.QKind == c08QBlock1 && (!w.hasB1 || !w.agg) {
+		return false
+	}
+	if m.TCKind != 0 && (m.TCView == 0 || w.q() < 3 || w.initial != len(w.ids)) {
 		return false
 	}
 	return true
 }
 
-// good: is this a correctly signed timeout message of replica ID for its view (ground truth)?
+// good: is this a correctly signed timeout message of a configured replica ID for its view (ground truth)?
 func (w *c08World) good(m c08Msg) bool {
 	if !w.member(m.ID) || m.VKind != c08VHonest {
 		return false
@@ -291,10 +418,10 @@ func (w *c08World) firstAdvance(m c08Msg) string {
 	return "(Ok 0)"
 }
 
-func (w *c08World) ids() string {
-	xs := make([]string, w.n)
+func (w *c08World) gIDs(k int) string {
+	xs := make([]string, k)
 	for i := range xs {
-		xs[i] = fmt.Sprint(i + 1)
+		xs[i] = fmt.Sprint(w.ids[i])
 	}
 	return "[" + strings.Join(xs, ";") + "]"
 }
@@ -304,7 +431,7 @@ func (w *c08World) gQC(k int) (term string, digest string) {
 	case c08QGenesis:
 		return "(Some qc_gen)", "(Some 1)"
 	case c08QBlock1:
-		return fmt.Sprintf("(Some (qc_b1 %s %s))", w.gsch, w.ids()), "(Some 2)"
+		return fmt.Sprintf("(Some (qc_b1 %s %s))", w.gsch, w.gIDs(len(w.ids))), "(Some 2)"
 	case c08QForged:
 		return "(Some qc_forged)", "(Some 3)"
 	}
@@ -326,7 +453,7 @@ func (w *c08World) gallina(m c08Msg) string {
 	case c08VOtherView:
 		vs = fmt.Sprintf("(Some (G %s %d %d (MView %d)))", s, m.ID, m.ID, m.View+1)
 	case c08VGarbage:
-		vs = fmt.Sprintf("(Some (X %s %d))", s, m.ID)
+		vs = w.gGarbage(m.ID)
 	case c08VAbsent:
 		vs = "None"
 	case c08VTwo:
@@ -339,7 +466,7 @@ func (w *c08World) gallina(m c08Msg) string {
 	case c08MAbsent:
 		ms = "None"
 	case c08MGarbage:
-		ms = fmt.Sprintf("(Some (X %s %d))", s, m.ID)
+		ms = w.gGarbage(m.ID)
 	case c08MForeign:
 		ms = fmt.Sprintf("(Some (G %s %d %d (MTimeout %d %d %s)))", s, m.Who, m.Who, m.ID, m.View, qd)
 	case c08MStale:
@@ -365,23 +492,28 @@ func (r *c08Ruler) RemoteTimeoutRule(cur, tv hotstuff.View, ts []hotstuff.Timeou
 }
 
 func (w *c08World) wire(c0 uint64) (*protocol.ViewStates, *Synchronizer, *c08Ruler) {
-	e := w.set[0]
+	e := w.ess[0]
 	logger := logging.NewWithDest(io.Discard, "c08")
 	el := eventloop.New(logger, 100)
 	vs, err := protocol.NewViewStates(e.Blockchain(), e.Authority())
 	if err != nil {
 		w.t.Fatal(err)
 	}
-	leader := hotstuff.ID(2) // never the replica under test, so advanceView only sends NewView
+	// the leader is never the replica under test, so advanceView only sends NewView
+	leader := hotstuff.ID(w.ids[0] + 1)
+	if len(w.ids) >= 2 {
+		leader = hotstuff.ID(w.ids[1])
+	}
 	lr := leaderrotation.NewFixed(leader)
+	sender := &c08Sender{MockSender: e.MockSender(), fail: w.sendFail}
 	cr := rules.NewChainedHotStuff(logger, e.RuntimeCfg(), e.Blockchain())
 	vm := votingmachine.New(logger, el, e.RuntimeCfg(), e.Blockchain(), e.Authority(), vs)
 	cc := clientpb.NewCommandCache(1)
 	dc := wiring.NewConsensus(el, logger, e.RuntimeCfg(), e.Blockchain(), e.Authority(), cc, cr, lr, vs,
-		comm.NewClique(e.RuntimeCfg(), vm, lr, e.MockSender()))
+		comm.NewClique(e.RuntimeCfg(), vm, lr, sender))
 	rr := &c08Ruler{TimeoutRuler: NewTimeoutRuler(e.RuntimeCfg(), e.Authority())}
 	s := New(el, logger, e.RuntimeCfg(), e.Authority(), lr, NewFixedDuration(time.Hour), rr,
-		dc.Proposer(), dc.Voter(), vs, e.MockSender())
+		dc.Proposer(), dc.Voter(), vs, sender)
 	for vs.View() < hotstuff.View(c0) {
 		vs.NextView()
 	}
@@ -450,8 +582,8 @@ func (o c08Obs) gallina() string {
 	return fmt.Sprintf("(SO %d %s %s %s %d %d %d %d %s)", o.Code, gKeys(o.Handed), tc, ag, o.VTC, o.VAgg, o.HQView, o.View, gKeys(o.Bag))
 }
 
-// one OnRemoteTimeout call, observed
-func (w *c08World) call(vs *protocol.ViewStates, s *Synchronizer, rr *c08Ruler, tm hotstuff.TimeoutMsg) (o c08Obs) {
+// one OnRemoteTimeout / OnLocalTimeout call, observed
+func (w *c08World) call(vs *protocol.ViewStates, s *Synchronizer, rr *c08Ruler, f func()) (o c08Obs) {
 	rr.called, rr.list, rr.err = false, nil, nil
 	o.VTC, o.VAgg = 3, 3
 	func() {
@@ -460,7 +592,7 @@ func (w *c08World) call(vs *protocol.ViewStates, s *Synchronizer, rr *c08Ruler, 
 				o.Code, o.Err = 9, fmt.Sprint(r)
 			}
 		}()
-		s.OnRemoteTimeout(tm)
+		f()
 	}()
 	o.View = uint64(vs.View())
 	o.Bag = c08Keys(s.timeouts.timeouts)
@@ -478,9 +610,9 @@ func (w *c08World) call(vs *protocol.ViewStates, s *Synchronizer, rr *c08Ruler, 
 		return o
 	}
 	o.Code = 3
-	other := w.set[0].Authority()
-	if w.n >= 2 {
-		other = w.set[1].Authority()
+	other := w.ess[0].Authority()
+	if len(w.ess) >= 2 {
+		other = w.ess[1].Authority()
 	}
 	if tc, ok := rr.si.TC(); ok {
 		o.HasTC, o.TCView, o.TCParts = true, uint64(tc.View()), c08Parts(tc.Signature())
@@ -520,14 +652,17 @@ func (w *c08World) call(vs *protocol.ViewStates, s *Synchronizer, rr *c08Ruler, 
 }
 
 type c08Run struct {
-	N      int      `json:"n"`
-	Agg    bool     `json:"aggregate_qc"`
-	Scheme string   `json:"scheme"`
-	C0     uint64   `json:"receiver_view"`
-	Msgs   []c08Msg `json:"timeouts"`
+	IDs      []uint64 `json:"replica_ids"`
+	Initial  int      `json:"configured_initially"`
+	Agg      bool     `json:"aggregate_qc"`
+	Scheme   string   `json:"scheme"`
+	Cache    uint     `json:"cache_size"`
+	SendFail bool     `json:"newview_send_fails"`
+	C0       uint64   `json:"receiver_view"`
+	Msgs     []c08Msg `json:"timeouts"`
 }
 
-func c08Contains(xs []int, x int) bool {
+func c08Contains(xs []uint64, x uint64) bool {
 	for _, y := range xs {
 		if x == y {
 			return true
@@ -536,36 +671,73 @@ func c08Contains(xs []int, x int) bool {
 	return false
 }
 
-// runSync feeds one sequence to a fresh synchronizer, emits the kernel case and evaluates the oracle.
+// c08RunSync feeds one sequence to a fresh synchronizer, emits the kernel case and evaluates the oracle.
 func c08RunSync(v *verifOut, st *verifStream, w *c08World, c0 uint64, msgs []c08Msg, class string) {
 	vs, s, rr := w.wire(c0)
-	run := c08Run{N: w.n, Agg: w.agg, Scheme: w.scheme, C0: c0, Msgs: msgs}
-	tally := map[uint64][]int{}
+	mkRun := func(k int) c08Run {
+		return c08Run{IDs: w.ids, Initial: w.initial, Agg: w.agg, Scheme: w.scheme, Cache: w.cacheSz, SendFail: w.sendFail, C0: c0, Msgs: msgs[:k]}
+	}
+	tally := map[uint64][]uint64{}
 	goodSeen := map[[2]uint64]bool{}
+	goodQC := map[[2]uint64]bool{} // (id, view) whose counted message reports a valid QC
 	steps := make([]string, 0, len(msgs))
 	obs := make([]c08Obs, 0, len(msgs))
-	fired, byz := 0, 0
-	for i, m := range msgs {
+	fired, byz, locals := 0, 0, 0
+	cfg0 := fmt.Sprintf("mkCfg %s %s 1 %s", w.gsch, w.gIDs(w.members), gBool(w.agg))
+	for i := range msgs {
+		m := msgs[i]
+		if m.Op == "grow" {
+			w.grow(m.GrowTo)
+			steps = append(steps, fmt.Sprintf("SGrow %s", w.gIDs(w.members)))
+			obs = append(obs, c08Obs{})
+			continue
+		}
 		entry := uint64(vs.View())
-		tm := w.build(m)
-		o := w.call(vs, s, rr, tm)
+		a1 := ""
+		var o c08Obs
+		if m.Op == "local" {
+			if s.lastTimeout != nil && uint64(s.lastTimeout.View) == entry {
+				// the previous timeout would only be re-broadcast; OnRemoteTimeout is not reached
+				msgs[i].Op = "skipped-local"
+				obs = append(obs, c08Obs{})
+				continue
+			}
+			// the replica's own timeout: view = current view, sync info = its high QC and high TC
+			m = c08Msg{Op: "local", ID: w.ids[0], View: entry, MKind: c08MAbsent, QKind: c08QGenesis}
+			if w.agg {
+				m.MKind = c08MHonest
+			}
+			if vs.HighQC().BlockHash() == w.b1.Hash() {
+				m.QKind = c08QBlock1
+			}
+			a1 = fmt.Sprintf("(Ok %d)", uint64(vs.HighTC().View()))
+			msgs[i] = m
+			o = w.call(vs, s, rr, func() { s.OnLocalTimeout() })
+			locals++
+		} else {
+			tm := w.build(m)
+			a1 = w.firstAdvance(m)
+			o = w.call(vs, s, rr, func() { s.OnRemoteTimeout(tm) })
+		}
 		obs = append(obs, o)
-		steps = append(steps, fmt.Sprintf("(%s, %s, %s)", w.gallina(m), w.firstAdvance(m), o.gallina()))
+		steps = append(steps, fmt.Sprintf("SMsg %s %s %s", w.gallina(m), a1, o.gallina()))
 
 		// ---- the property's oracle, from ground truth ----
+		q := w.q()
 		good := w.good(m)
 		if !good {
 			byz++
 		} else {
-			goodSeen[[2]uint64{uint64(m.ID), m.View}] = true
+			goodSeen[[2]uint64{m.ID, m.View}] = true
 		}
 		expectFire := false
-		var expect []int
+		var expect []uint64
 		if good {
 			T := tally[m.View]
 			if !c08Contains(T, m.ID) {
-				T = append(append([]int(nil), T...), m.ID)
-				if len(T) >= w.q {
+				T = append(append([]uint64(nil), T...), m.ID)
+				goodQC[[2]uint64{m.ID, m.View}] = m.QKind == c08QGenesis || m.QKind == c08QBlock1
+				if len(T) >= q {
 					expectFire, expect, T = true, T, nil
 				}
 				tally[m.View] = T
@@ -574,7 +746,7 @@ func c08RunSync(v *verifOut, st *verifStream, w *c08World, c0 uint64, msgs []c08
 		if o.Code == 3 || o.Code == 2 {
 			fired++
 		}
-		input := map[string]any{"run": c08Run{N: w.n, Agg: w.agg, Scheme: w.scheme, C0: c0, Msgs: msgs[:i+1]}, "step": i,
+		input := map[string]any{"run": mkRun(i + 1), "step": i, "quorum": q,
 			"view_at_entry": entry, "observed": o, "expected_quorum": expectFire, "expected_senders": expect}
 		if o.Code == 9 {
 			c08Oracle(v, false, "timeout.sync:panic", "OnRemoteTimeout panicked: "+o.Err, input)
@@ -593,7 +765,7 @@ func c08RunSync(v *verifOut, st *verifStream, w *c08World, c0 uint64, msgs []c08
 		switch {
 		case didFire && mixed:
 			c08Oracle(v, false, "timeout.collector:counts-other-views",
-				fmt.Sprintf("certificate creation for view %d was handed timeouts of other views %v (quorum %d)", m.View, o.Handed, w.q), input)
+				fmt.Sprintf("certificate creation for view %d was handed timeouts of other views %v (quorum %d)", m.View, o.Handed, q), input)
 		case didFire && !expectFire:
 			fp := "timeout.collector:certificate-without-quorum"
 			for _, k := range o.Handed {
@@ -602,10 +774,10 @@ func c08RunSync(v *verifOut, st *verifStream, w *c08World, c0 uint64, msgs []c08
 				}
 			}
 			c08Oracle(v, false, fp,
-				fmt.Sprintf("certificate creation for view %d started with %v although only %d correctly signed distinct senders are outstanding (quorum %d)", m.View, o.Handed, len(tally[m.View]), w.q), input)
+				fmt.Sprintf("certificate creation for view %d started with %v although only %d correctly signed distinct senders are outstanding (quorum %d)", m.View, o.Handed, len(tally[m.View]), q), input)
 		case !didFire && expectFire:
 			c08Oracle(v, false, "timeout.collector:quorum-missed",
-				fmt.Sprintf("correctly signed timeouts for view %d from %v (quorum %d) were received but no certificate was assembled", m.View, expect, w.q), input)
+				fmt.Sprintf("correctly signed timeouts for view %d from %v (quorum %d) were received but no certificate was assembled", m.View, expect, q), input)
 		default:
 			c08Oracle(v, true, "", "", nil)
 		}
@@ -615,14 +787,14 @@ func c08RunSync(v *verifOut, st *verifStream, w *c08World, c0 uint64, msgs []c08
 		same := len(o.Handed) == len(expect)
 		if same {
 			for j, k := range o.Handed {
-				if int(k[0]) != expect[j] {
+				if k[0] != expect[j] {
 					same = false
 				}
 			}
 		}
 		c08Oracle(v, same, "timeout.collector:not-built-from-quorum",
 			fmt.Sprintf("list %v differs from the quorum's messages %v", o.Handed, expect), input)
-		if w.q < 2 {
+		if q < 2 {
 			continue // a single signature cannot be combined (n = 1): outside the property's n
 		}
 		if o.Code != 3 {
@@ -634,8 +806,8 @@ func c08RunSync(v *verifOut, st *verifStream, w *c08World, c0 uint64, msgs []c08
 		aggOK := true
 		if w.agg {
 			hasValidQC := false
-			for _, mm := range msgs[:i+1] {
-				if mm.View == m.View && w.good(mm) && c08Contains(expect, mm.ID) && (mm.QKind == c08QGenesis || mm.QKind == c08QBlock1) {
+			for _, id := range expect {
+				if goodQC[[2]uint64{id, m.View}] {
 					hasValidQC = true
 				}
 			}
@@ -652,33 +824,51 @@ func c08RunSync(v *verifOut, st *verifStream, w *c08World, c0 uint64, msgs []c08
 				fmt.Sprintf("replica in view %d assembled the certificate for it and is in view %d afterwards", entry, o.View), input)
 		}
 	}
-	term := fmt.Sprintf("(mkCfg %s %s 1 %s, %d, [%s])", w.gsch, w.ids(), gBool(w.agg), c0, strings.Join(steps, ";\n  "))
+	term := fmt.Sprintf("(%s, %d, [%s])", cfg0, c0, strings.Join(steps, ";\n  "))
+	run := mkRun(len(msgs))
 	v.Case(st, term, map[string]any{"run": run, "observed": obs})
 	key := fmt.Sprintf("%v", run)
 	v.Seen(key, fired > 0 || byz > 0, map[string]any{"run": run, "observed_last": obs[len(obs)-1]})
 	v.Count("sync:" + class)
-	v.Count(fmt.Sprintf("sync:n=%d agg=%v", w.n, w.agg))
+	v.Count(fmt.Sprintf("sync:n=%d agg=%v %s", len(w.ids), w.agg, w.scheme))
+	if w.ids[len(w.ids)-1] > 255 {
+		v.Count("sync:large-or-sparse-ids")
+	}
+	if w.cacheSz > 0 {
+		v.Count("sync:signature-cache-on")
+	}
+	if w.sendFail {
+		v.Count("sync:newview-send-fails")
+	}
+	if locals > 0 {
+		v.Count("sync:runs-with-local-timeout")
+	}
 	if fired > 0 {
 		v.Count("sync:runs-with-certificate")
+	}
+	if fired > 1 {
+		v.Count("sync:runs-with-2+-certificates")
 	}
 }
 
 // ---------- collector-only stream ----------
 
 type c08Op struct {
-	Del  bool   `json:"delete_old_views"`
-	ID   int    `json:"id"`
-	View uint64 `json:"view"`
+	Del    bool   `json:"delete_old_views,omitempty"`
+	GrowTo int    `json:"grow_to,omitempty"` // AddReplica until this many replicas are configured
+	ID     uint64 `json:"id"`
+	View   uint64 `json:"view"`
 }
 
-func c08RunColl(v *verifOut, st *verifStream, n int, ops []c08Op, class string) {
-	config := core.NewRuntimeConfig(1, nil)
-	for i := range n {
-		config.AddReplica(&hotstuff.ReplicaInfo{ID: hotstuff.ID(i + 1)})
+// c08RunColl runs an operation sequence on a collector whose configuration holds the first n0 of ids.
+func c08RunColl(v *verifOut, st *verifStream, ids []uint64, n0 int, ops []c08Op, class string) {
+	config := core.NewRuntimeConfig(hotstuff.ID(ids[0]), nil)
+	for i := 0; i < n0; i++ {
+		config.AddReplica(&hotstuff.ReplicaInfo{ID: hotstuff.ID(ids[i])})
 	}
-	q := hotstuff.QuorumSize(n)
+	n := n0
 	c := newTimeoutCollector(config)
-	tally := map[uint64][]int{}
+	tally := map[uint64][]uint64{}
 	steps := make([]string, 0, len(ops))
 	type obsT struct {
 		Quorum bool        `json:"quorum"`
@@ -688,7 +878,16 @@ func c08RunColl(v *verifOut, st *verifStream, n int, ops []c08Op, class string) 
 	var all []obsT
 	nontriv := false
 	for i, op := range ops {
-		input := map[string]any{"n": n, "ops": ops[:i+1]}
+		input := map[string]any{"replica_ids": ids, "configured_initially": n0, "ops": ops[:i+1]}
+		if op.GrowTo > 0 {
+			for ; n < op.GrowTo && n < len(ids); n++ {
+				config.AddReplica(&hotstuff.ReplicaInfo{ID: hotstuff.ID(ids[n])})
+			}
+			bag := c08Keys(c.timeouts)
+			all = append(all, obsT{false, nil, bag})
+			steps = append(steps, fmt.Sprintf("(CGrow %d%%nat, (None, %s))", n, gKeys(bag)))
+			continue
+		}
 		if op.Del {
 			c.deleteOldViews(hotstuff.View(op.View))
 			for vw := range tally {
@@ -701,6 +900,7 @@ func c08RunColl(v *verifOut, st *verifStream, n int, ops []c08Op, class string) 
 			steps = append(steps, fmt.Sprintf("(CDel %d, (None, %s))", op.View, gKeys(bag)))
 			continue
 		}
+		q := hotstuff.QuorumSize(n)
 		list, quorum := c.add(hotstuff.TimeoutMsg{ID: hotstuff.ID(op.ID), View: hotstuff.View(op.View)})
 		bag := c08Keys(c.timeouts)
 		ret := "None"
@@ -713,9 +913,9 @@ func c08RunColl(v *verifOut, st *verifStream, n int, ops []c08Op, class string) 
 		// oracle
 		T := tally[op.View]
 		expectFire := false
-		var expect []int
+		var expect []uint64
 		if !c08Contains(T, op.ID) {
-			T = append(append([]int(nil), T...), op.ID)
+			T = append(append([]uint64(nil), T...), op.ID)
 			if len(T) >= q {
 				expectFire, expect, T = true, T, nil
 			}
@@ -733,12 +933,12 @@ func c08RunColl(v *verifOut, st *verifStream, n int, ops []c08Op, class string) 
 				fmt.Sprintf("add reported a quorum for view %d with the list %v (quorum %d)", op.View, c08Keys(list), q), input)
 		case quorum != expectFire:
 			c08Oracle(v, false, "timeout.collector:quorum-missed",
-				fmt.Sprintf("add reported quorum=%v for view %d; distinct unconsumed senders say %v", quorum, op.View, expectFire), input)
+				fmt.Sprintf("add reported quorum=%v for view %d; distinct unconsumed senders say %v (quorum %d of %d configured)", quorum, op.View, expectFire, q, n), input)
 		case quorum:
 			same := len(list) == len(expect)
 			if same {
 				for j, t := range list {
-					if int(t.ID) != expect[j] {
+					if uint64(t.ID) != expect[j] {
 						same = false
 					}
 				}
@@ -748,9 +948,24 @@ func c08RunColl(v *verifOut, st *verifStream, n int, ops []c08Op, class string) 
 			c08Oracle(v, len(list) == 0, "timeout.collector:list-without-quorum", "non-empty list without quorum", input)
 		}
 	}
-	v.Case(st, fmt.Sprintf("(%d%%nat, [%s])", n, strings.Join(steps, "; ")), map[string]any{"n": n, "ops": ops, "observed": all})
-	v.Seen(fmt.Sprintf("coll %d %v", n, ops), nontriv, map[string]any{"n": n, "ops": ops})
+	v.Case(st, fmt.Sprintf("(%d%%nat, [%s])", n0, strings.Join(steps, "; ")), map[string]any{"replica_ids": ids, "configured_initially": n0, "ops": ops, "observed": all})
+	v.Seen(fmt.Sprintf("coll %v %d %v", ids, n0, ops), nontriv, map[string]any{"replica_ids": ids, "ops": ops})
 	v.Count("coll:" + class)
+}
+
+func c08Seq(n int) []uint64 {
+	xs := make([]uint64, n)
+	for i := range xs {
+		xs[i] = uint64(i + 1)
+	}
+	return xs
+}
+
+// id sets: contiguous, and sparse ones whose members agree in their low 8 / 16 bits and reach the
+// limits of uint32
+var c08Sparse = map[int][]uint64{
+	4: {3, 259, 65539, 4294967295},
+	7: {1, 257, 513, 65537, 16777217, 2147483649, 4294967295},
 }
 
 // ---------- generators ----------
@@ -760,11 +975,12 @@ func TestVerifC08(t *testing.T) {
 	v := verifNew("C08")
 	coll := v.Stream("coll", "coll_mismatches", 1500)
 	syn := v.Stream("sync", "sync_mismatches", v.Pick(250, 400))
+	maxView := ^uint64(0)
 
-	// --- collector: exhaustive small scope (n = 4, quorum 3) ---
+	// --- collector: exhaustive small scope (n = 4, quorum 3, two views) ---
 	{
 		alpha := []c08Op{}
-		for _, id := range []int{1, 2, 3} {
+		for _, id := range []uint64{1, 2, 3} {
 			for _, vw := range []uint64{5, 6} {
 				alpha = append(alpha, c08Op{ID: id, View: vw})
 			}
@@ -774,7 +990,7 @@ func TestVerifC08(t *testing.T) {
 		var rec func(prefix []c08Op)
 		rec = func(prefix []c08Op) {
 			if len(prefix) > 0 {
-				c08RunColl(v, coll, 4, append([]c08Op(nil), prefix...), "exhaustive")
+				c08RunColl(v, coll, c08Seq(4), 4, append([]c08Op(nil), prefix...), "exhaustive")
 			}
 			if len(prefix) == maxLen {
 				return
@@ -785,42 +1001,101 @@ func TestVerifC08(t *testing.T) {
 		}
 		rec(nil)
 	}
+	// --- collector: exhaustive over three interleaved views (n = 2, quorum 2; sparse ids 1 and 257) ---
+	{
+		alpha := []c08Op{}
+		for _, id := range []uint64{1, 257} {
+			for _, vw := range []uint64{5, 6, 7} {
+				alpha = append(alpha, c08Op{ID: id, View: vw})
+			}
+		}
+		if v.Thorough() {
+			alpha = append(alpha, c08Op{Del: true, View: 6}, c08Op{Del: true, View: 7})
+		}
+		maxLen := v.Pick(4, 5)
+		var rec func(prefix []c08Op)
+		rec = func(prefix []c08Op) {
+			if len(prefix) == maxLen {
+				c08RunColl(v, coll, []uint64{1, 257}, 2, append([]c08Op(nil), prefix...), "exhaustive-3-views")
+				return
+			}
+			for _, a := range alpha {
+				rec(append(prefix, a))
+			}
+		}
+		rec(nil)
+	}
 	// --- collector: the lead scenario and quorum boundaries for n = 1..13 ---
-	c08RunColl(v, coll, 4, []c08Op{{ID: 4, View: 900}, {ID: 1, View: 5}, {ID: 2, View: 5}, {ID: 3, View: 5}}, "boundary")
+	c08RunColl(v, coll, c08Seq(4), 4, []c08Op{{ID: 4, View: 900}, {ID: 1, View: 5}, {ID: 2, View: 5}, {ID: 3, View: 5}}, "boundary")
 	for n := 1; n <= 13; n++ {
 		q := hotstuff.QuorumSize(n)
 		var ops []c08Op
 		for id := 1; id < q; id++ { // q-1 distinct, then duplicates, a foreign view, then the q-th
-			ops = append(ops, c08Op{ID: id, View: 3})
+			ops = append(ops, c08Op{ID: uint64(id), View: 3})
 		}
-		ops = append(ops, c08Op{ID: 1, View: 3}, c08Op{ID: n, View: 4}, c08Op{ID: q, View: 3}, c08Op{ID: q, View: 3}, c08Op{ID: 1, View: 4})
-		c08RunColl(v, coll, n, ops, "boundary")
+		ops = append(ops, c08Op{ID: 1, View: 3}, c08Op{ID: uint64(n), View: 4}, c08Op{ID: uint64(q), View: 3}, c08Op{ID: uint64(q), View: 3}, c08Op{ID: 1, View: 4})
+		c08RunColl(v, coll, c08Seq(n), n, ops, "boundary")
 	}
-	// --- collector: random long sequences ---
+	// --- collector: the membership grows after the collector was created / first used ---
+	for _, from := range []int{1, 2, 4, 7} {
+		for _, to := range []int{4, 7, 10, 13} {
+			if to <= from {
+				continue
+			}
+			for _, early := range []int{0, 1, hotstuff.QuorumSize(from) - 1} { // adds before the growth
+				ids := c08Seq(to)
+				var ops []c08Op
+				for id := 1; id <= early; id++ {
+					ops = append(ops, c08Op{ID: uint64(id), View: 3})
+				}
+				ops = append(ops, c08Op{GrowTo: to})
+				for id := early + 1; id <= to; id++ { // the rest of view 3, interleaved with view 4
+					ops = append(ops, c08Op{ID: uint64(id), View: 3}, c08Op{ID: uint64(to + 1 - id), View: 4})
+				}
+				c08RunColl(v, coll, ids, from, ops, "membership-growth")
+			}
+		}
+	}
+	// --- collector: random long sequences (contiguous and sparse/large ids, views up to 2^64-1, growth) ---
 	for i := 0; i < v.Pick(1500, 12000); i++ {
 		n := []int{4, 7, 4, 7, 10, 2, 1}[v.rng.Intn(7)]
+		ids := c08Seq(n + 1) // one id beyond the configuration
+		if sp, ok := c08Sparse[n]; ok && v.rng.Intn(2) == 0 {
+			ids = append(append([]uint64(nil), sp...), []uint64{0, sp[0] + 256, 4294967294}[v.rng.Intn(3)])
+		}
+		n0 := n
+		if v.rng.Intn(4) == 0 {
+			n0 = 1 + v.rng.Intn(n)
+		}
 		views := []uint64{uint64(1 + v.rng.Intn(3)), 0, 0}
-		views[1], views[2] = views[0]+1, views[0]+uint64(2+v.rng.Intn(1000))
+		views[1] = views[0] + 1
+		views[2] = []uint64{views[0] + 2, views[0] + uint64(2+v.rng.Intn(1000)), 1 << 32, 1 << 63, maxView - 1, maxView}[v.rng.Intn(6)]
 		L := 1 + v.rng.Intn(14)
 		ops := make([]c08Op, L)
 		for j := range ops {
-			if v.rng.Intn(8) == 0 {
+			switch {
+			case n0 < n && v.rng.Intn(5) == 0:
+				ops[j] = c08Op{GrowTo: n0 + 1 + v.rng.Intn(n-n0)}
+			case v.rng.Intn(8) == 0:
 				ops[j] = c08Op{Del: true, View: views[v.rng.Intn(3)] + uint64(v.rng.Intn(2))}
-			} else {
-				ops[j] = c08Op{ID: 1 + v.rng.Intn(n+1), View: views[v.rng.Intn(3)]}
+				if ops[j].View == 0 { // maxView + 1 wrapped
+					ops[j].View = maxView
+				}
+			default:
+				ops[j] = c08Op{ID: ids[v.rng.Intn(len(ids))], View: views[v.rng.Intn(3)]}
 			}
 		}
-		c08RunColl(v, coll, n, ops, "random")
+		c08RunColl(v, coll, ids[:n], n0, ops, "random")
 	}
 
 	// --- synchronizer ---
 	worlds := map[string]*c08World{}
-	world := func(n int, agg bool, scheme string) *c08World {
-		k := fmt.Sprintf("%d/%v/%s", n, agg, scheme)
+	world := func(ids []uint64, agg bool, scheme string, cacheSz uint, sendFail bool) *c08World {
+		k := fmt.Sprintf("%v/%v/%s/%d/%v", ids, agg, scheme, cacheSz, sendFail)
 		if w, ok := worlds[k]; ok {
 			return w
 		}
-		w := c08NewWorld(t, n, agg, scheme)
+		w := c08NewWorld(t, ids, len(ids), agg, scheme, cacheSz, sendFail)
 		worlds[k] = w
 		return w
 	}
@@ -829,9 +1104,9 @@ func TestVerifC08(t *testing.T) {
 	// views 5 and 6, Byzantine sender 4 with a far-future timeout, a foreign signature, garbage,
 	// and (aggregate) a missing message signature
 	for _, agg := range []bool{false, true} {
-		w := world(4, agg, crypto.NameECDSA)
+		w := world(c08Seq(4), agg, crypto.NameECDSA, 0, false)
 		alpha := []c08Msg{}
-		for _, id := range []int{1, 2, 3} {
+		for _, id := range []uint64{1, 2, 3} {
 			for _, vw := range []uint64{5, 6} {
 				alpha = append(alpha, c08Msg{ID: id, View: vw})
 			}
@@ -844,9 +1119,6 @@ func TestVerifC08(t *testing.T) {
 			alpha = append(alpha, c08Msg{ID: 4, View: 5, MKind: c08MAbsent})
 		}
 		maxLen := v.Pick(3, 4)
-		if agg {
-			maxLen = v.Pick(3, 4)
-		}
 		var rec func(prefix []c08Msg)
 		rec = func(prefix []c08Msg) {
 			if len(prefix) == maxLen {
@@ -860,117 +1132,230 @@ func TestVerifC08(t *testing.T) {
 		rec(nil)
 	}
 
-	// boundary / malformed stream
+	// boundary / malformed stream: contiguous ids, sparse large ids, EdDSA, BLS12, cache on
+	type variant struct {
+		ids     []uint64
+		scheme  string
+		cacheSz uint
+		c0s     []uint64
+	}
+	variants := []variant{
+		{c08Seq(4), crypto.NameECDSA, 0, []uint64{3, 5, 6}},
+		{c08Seq(7), crypto.NameECDSA, 0, []uint64{3, 5, 6}},
+		{c08Sparse[4], crypto.NameECDSA, 1, []uint64{4, 5}},
+		{c08Sparse[7], crypto.NameEDDSA, 64, []uint64{5}},
+		{[]uint64{2, 3, 9, 12}, crypto.NameBLS12, 0, []uint64{4, 5}},
+	}
 	for _, agg := range []bool{false, true} {
-		for _, n := range []int{4, 7} {
-			w := world(n, agg, crypto.NameECDSA)
-			q := w.q
-			honest := func(view uint64, ids ...int) []c08Msg {
+		for _, vr := range variants {
+			w := world(vr.ids, agg, vr.scheme, vr.cacheSz, false)
+			n, q, ids := len(vr.ids), w.q(), vr.ids
+			last := ids[n-1]
+			honest := func(view uint64, xs ...uint64) []c08Msg {
 				var ms []c08Msg
-				for _, id := range ids {
+				for _, id := range xs {
 					ms = append(ms, c08Msg{ID: id, View: view})
 				}
 				return ms
 			}
-			seq := func(k int) []int {
-				var xs []int
-				for i := 1; i <= k; i++ {
-					xs = append(xs, i)
-				}
-				return xs
-			}
-			for _, c0 := range []uint64{3, 5, 6} { // receiver behind / at / ahead of view 5
+			for _, c0 := range vr.c0s { // receiver behind / at / ahead of view 5
 				// exactly a quorum, then the rest
-				c08RunSync(v, syn, w, c0, honest(5, seq(n)...), "boundary")
+				c08RunSync(v, syn, w, c0, honest(5, ids...), "boundary")
 				// one below the quorum, duplicates, then the q-th
-				ms := honest(5, seq(q-1)...)
-				ms = append(ms, honest(5, 1, 2)...)
-				ms = append(ms, honest(5, q)...)
+				ms := honest(5, ids[:q-1]...)
+				ms = append(ms, honest(5, ids[0], ids[1])...)
+				ms = append(ms, honest(5, ids[q-1])...)
 				c08RunSync(v, syn, w, c0, ms, "boundary")
-				// the far-future timeout of a Byzantine replica first
-				ms = append([]c08Msg{{ID: n, View: 900}}, honest(5, seq(q-1)...)...)
-				ms = append(ms, honest(5, q)...)
-				c08RunSync(v, syn, w, c0, ms, "boundary")
-				// every hostile kind from replica n in front of an honest quorum
+				// far-future timeouts of a Byzantine replica first (also at the end of the view range)
+				for _, far := range []uint64{900, maxView} {
+					ms = append([]c08Msg{{ID: last, View: far}}, honest(5, ids[:q-1]...)...)
+					ms = append(ms, honest(5, ids[q-1])...)
+					c08RunSync(v, syn, w, c0, ms, "boundary")
+				}
+				// every hostile kind from the last replica in front of an honest quorum
 				for vk := c08VForeign; vk <= c08VTwo; vk++ {
-					ms = append([]c08Msg{{ID: n, View: 5, VKind: vk, Who: 1}}, honest(5, seq(q-1)...)...)
-					ms = append(ms, honest(5, q)...)
+					ms = append([]c08Msg{{ID: last, View: 5, VKind: vk, Who: ids[0]}}, honest(5, ids[:q-1]...)...)
+					ms = append(ms, honest(5, ids[q-1])...)
 					c08RunSync(v, syn, w, c0, ms, "boundary")
 				}
 				for mk := c08MAbsent; mk <= c08MStale; mk++ {
-					ms = append([]c08Msg{{ID: n, View: 5, MKind: mk, Who: 1}}, honest(5, seq(q-1)...)...)
-					ms = append(ms, honest(5, q)...)
+					ms = append([]c08Msg{{ID: last, View: 5, MKind: mk, Who: ids[0]}}, honest(5, ids[:q-1]...)...)
+					ms = append(ms, honest(5, ids[q-1])...)
 					c08RunSync(v, syn, w, c0, ms, "boundary")
 				}
 				for _, qk := range []int{c08QForged, c08QNone, c08QBlock1} {
-					x := c08Msg{ID: n, View: 5, QKind: qk}
+					x := c08Msg{ID: last, View: 5, QKind: qk}
 					if !w.wellFormed(x) {
 						continue
 					}
-					ms = append([]c08Msg{x}, honest(5, seq(q-1)...)...)
-					ms = append(ms, honest(5, q)...)
+					ms = append([]c08Msg{x}, honest(5, ids[:q-1]...)...)
+					ms = append(ms, honest(5, ids[q-1])...)
 					c08RunSync(v, syn, w, c0, ms, "boundary")
 				}
-				// a claimed id outside the configuration
-				ms = append([]c08Msg{{ID: n + 5, View: 5, VKind: c08VForeign, Who: 1, MKind: c08MAbsent}}, honest(5, seq(q)...)...)
-				c08RunSync(v, syn, w, c0, ms, "boundary")
+				// claimed ids outside the configuration (one that agrees with a member in its low byte)
+				for _, out := range []uint64{ids[0] + 256, 4294967294} {
+					x := c08Msg{ID: out, View: 5, VKind: c08VForeign, Who: ids[0], MKind: c08MAbsent}
+					if !w.wellFormed(x) {
+						continue
+					}
+					ms = append([]c08Msg{x}, honest(5, ids[:q]...)...)
+					c08RunSync(v, syn, w, c0, ms, "boundary")
+				}
 				// the sender's sync info carries a TC that moves the receiver first
-				ms = honest(5, seq(q)...)
+				ms = honest(5, ids[:q]...)
 				ms[0].TCKind, ms[0].TCView = 1, c0
 				ms[1].TCKind, ms[1].TCView = 2, c0+1
 				c08RunSync(v, syn, w, c0, ms, "boundary")
-				// two views interleaved, both reach a quorum
+				// three views interleaved, all reach a quorum
 				ms = nil
-				for id := 1; id <= q; id++ {
-					ms = append(ms, c08Msg{ID: id, View: 6}, c08Msg{ID: id, View: 5})
+				for _, id := range ids[:q] {
+					ms = append(ms, c08Msg{ID: id, View: 7}, c08Msg{ID: id, View: 6}, c08Msg{ID: id, View: 5})
 				}
 				c08RunSync(v, syn, w, c0, ms, "boundary")
 				// a quorum, then the same senders again (re-sent timeouts)
-				ms = append(honest(5, seq(q)...), honest(5, seq(q)...)...)
+				ms = append(honest(5, ids[:q]...), honest(5, ids[:q]...)...)
+				c08RunSync(v, syn, w, c0, ms, "boundary")
+				// the replica's own timeout is one of the quorum, and is counted once
+				ms = append([]c08Msg{{Op: "local"}, {Op: "local"}}, honest(c0, ids[1:q]...)...)
+				ms = append(ms, c08Msg{Op: "local"}, c08Msg{ID: ids[0], View: c0 + 1}, c08Msg{Op: "local"})
+				ms = append(ms, honest(c0+1, ids[1:q]...)...)
+				c08RunSync(v, syn, w, c0, ms, "boundary")
+				// lagging replica: part of view c0+1, a whole quorum for c0+2, then the rest of c0+1
+				ms = honest(c0+1, ids[:q-1]...)
+				ms = append(ms, honest(c0+2, ids[n-q:]...)...)
+				ms = append(ms, honest(c0+1, ids[q-1:]...)...)
+				ms = append(ms, honest(c0+2, ids[:q]...)...)
 				c08RunSync(v, syn, w, c0, ms, "boundary")
 			}
 		}
 	}
 	for _, n := range []int{1, 2, 3} { // tiny configurations
 		for _, agg := range []bool{false, true} {
-			w := world(n, agg, crypto.NameECDSA)
+			w := world(c08Seq(n), agg, crypto.NameECDSA, 0, false)
 			var ms []c08Msg
 			for id := 1; id <= n; id++ {
-				ms = append(ms, c08Msg{ID: id, View: 2})
+				ms = append(ms, c08Msg{ID: uint64(id), View: 2})
 			}
-			ms = append(ms, c08Msg{ID: 1, View: 2}, c08Msg{ID: 1, View: 0})
+			ms = append(ms, c08Msg{ID: 1, View: 2}, c08Msg{ID: 1, View: 0}, c08Msg{Op: "local"})
 			c08RunSync(v, syn, w, 2, ms, "boundary")
 		}
 	}
 
+	// membership growth: the synchronizer collects its first timeouts while only part of the
+	// replicas are configured; fresh world per run because the configuration is mutated
+	for _, agg := range []bool{false, true} {
+		for _, from := range []int{2, 4} {
+			for _, idset := range [][]uint64{c08Seq(7), c08Sparse[7]} {
+				for _, early := range []int{0, 1, 2} {
+					if early >= hotstuff.QuorumSize(from) {
+						continue
+					}
+					w := c08NewWorld(t, idset, from, agg, crypto.NameECDSA, 0, false)
+					var ms []c08Msg
+					for _, id := range idset[:early] {
+						ms = append(ms, c08Msg{ID: id, View: 5})
+					}
+					ms = append(ms, c08Msg{ID: idset[6], View: 5}) // not configured yet: must not count
+					ms = append(ms, c08Msg{Op: "grow", GrowTo: 7})
+					for _, id := range idset[early:] {
+						ms = append(ms, c08Msg{ID: id, View: 5}, c08Msg{ID: id, View: 6})
+					}
+					c08RunSync(v, syn, w, 5, ms, "membership-growth")
+				}
+			}
+		}
+	}
+	for i := 0; i < v.Pick(60, 600); i++ {
+		idset := c08Seq(7)
+		if v.rng.Intn(2) == 0 {
+			idset = c08Sparse[7]
+		}
+		from := 2 + v.rng.Intn(5)
+		w := c08NewWorld(t, idset, from, v.rng.Intn(2) == 0, crypto.NameECDSA, 0, false)
+		L := 4 + v.rng.Intn(12)
+		cur := from
+		var ms []c08Msg
+		for len(ms) < L {
+			if cur < 7 && v.rng.Intn(4) == 0 {
+				cur += 1 + v.rng.Intn(7-cur)
+				ms = append(ms, c08Msg{Op: "grow", GrowTo: cur})
+				continue
+			}
+			ms = append(ms, c08Msg{ID: idset[v.rng.Intn(7)], View: uint64(5 + v.rng.Intn(2))})
+		}
+		c08RunSync(v, syn, w, uint64(4+v.rng.Intn(2)), ms, "membership-growth")
+	}
+
+	// lagging replica: honest traffic over three consecutive views, the replica starts behind and
+	// walks forward one view per certificate; its own local timeouts are part of the traffic
+	for i := 0; i < v.Pick(300, 3000); i++ {
+		n := []int{4, 7}[v.rng.Intn(2)]
+		ids := c08Seq(n)
+		if v.rng.Intn(3) == 0 {
+			ids = c08Sparse[n]
+		}
+		w := world(ids, v.rng.Intn(2) == 0, crypto.NameECDSA, 0, v.rng.Intn(4) == 0)
+		c0 := uint64(2 + v.rng.Intn(3))
+		L := 6 + v.rng.Intn(14)
+		ms := make([]c08Msg, 0, L)
+		for len(ms) < L {
+			if v.rng.Intn(8) == 0 {
+				ms = append(ms, c08Msg{Op: "local"})
+				continue
+			}
+			m := c08Msg{ID: ids[v.rng.Intn(n)], View: c0 + uint64([]int{0, 1, 1, 2, 2, 3}[v.rng.Intn(6)])}
+			if v.rng.Intn(12) == 0 {
+				m.TCKind, m.TCView = 1, c0+uint64(v.rng.Intn(3))
+			}
+			if !w.wellFormed(m) {
+				continue
+			}
+			ms = append(ms, m)
+		}
+		c08RunSync(v, syn, w, c0, ms, "lagging")
+	}
+
 	// random stream: up to 12 messages over 3 views, n in {4,7}, both rules, receiver at / behind / ahead
-	schemes := []string{crypto.NameECDSA, crypto.NameECDSA, crypto.NameEDDSA}
+	schemes := []string{crypto.NameECDSA, crypto.NameECDSA, crypto.NameECDSA, crypto.NameEDDSA, crypto.NameEDDSA}
 	for i := 0; i < v.Pick(1500, 12000); i++ {
 		n := []int{4, 7}[v.rng.Intn(2)]
 		agg := v.rng.Intn(2) == 0
-		w := world(n, agg, schemes[v.rng.Intn(len(schemes))])
+		ids := c08Seq(n)
+		if v.rng.Intn(3) == 0 {
+			ids = c08Sparse[n]
+		}
+		scheme := schemes[v.rng.Intn(len(schemes))]
+		if i%25 == 0 { // BLS12 is slow: a few runs, small sparse ids
+			scheme, ids = crypto.NameBLS12, [][]uint64{{2, 3, 9, 12}, {1, 2, 3, 4, 5, 6, 7}}[v.rng.Intn(2)]
+			n = len(ids)
+		}
+		w := world(ids, agg, scheme, []uint{0, 0, 1, 64}[v.rng.Intn(4)], v.rng.Intn(4) == 0)
+		outsiders := []uint64{0, ids[0] + 256, ids[n-1] - 1, 4294967294}
 		base := uint64(2 + v.rng.Intn(4))
-		views := []uint64{base, base + 1, base + uint64(2+v.rng.Intn(2000))}
+		far := []uint64{base + 2, base + uint64(2+v.rng.Intn(2000)), 1 << 32, 1 << 63, maxView - 1, maxView}[v.rng.Intn(6)]
+		views := []uint64{base, base + 1, far}
 		c0 := []uint64{base - 1, base, base, base, base + 1, base + 2}[v.rng.Intn(6)]
 		L := 1 + v.rng.Intn(12)
 		pByz := []int{0, 10, 25, 50}[v.rng.Intn(4)]
 		ms := make([]c08Msg, 0, L)
 		for len(ms) < L {
-			m := c08Msg{ID: 1 + v.rng.Intn(n), View: views[[]int{0, 0, 0, 1, 1, 2}[v.rng.Intn(6)]]}
+			m := c08Msg{ID: ids[v.rng.Intn(n)], View: views[[]int{0, 0, 0, 1, 1, 2}[v.rng.Intn(6)]]}
 			if len(ms) > 0 && v.rng.Intn(6) == 0 { // duplicate of an earlier message
 				m = ms[v.rng.Intn(len(ms))]
+			} else if v.rng.Intn(20) == 0 {
+				m = c08Msg{Op: "local"}
 			} else if v.rng.Intn(100) < pByz {
 				switch v.rng.Intn(5) {
 				case 0:
-					m.VKind, m.Who = 1+v.rng.Intn(6), 1+v.rng.Intn(n)
+					m.VKind, m.Who = 1+v.rng.Intn(6), ids[v.rng.Intn(n)]
 				case 1:
-					m.MKind, m.Who = 1+v.rng.Intn(4), 1+v.rng.Intn(n)
+					m.MKind, m.Who = 1+v.rng.Intn(4), ids[v.rng.Intn(n)]
 				case 2:
 					m.QKind = 1 + v.rng.Intn(3)
 				case 3:
 					m.TCKind, m.TCView = 1+v.rng.Intn(2), c0+uint64(v.rng.Intn(3))-1
 				case 4:
-					m.ID, m.VKind, m.Who, m.MKind = n+1+v.rng.Intn(3), []int{c08VForeign, c08VGarbage, c08VAbsent}[v.rng.Intn(3)], 1+v.rng.Intn(n), []int{c08MAbsent, c08MGarbage, c08MForeign}[v.rng.Intn(3)]
+					m.ID, m.VKind, m.Who, m.MKind = outsiders[v.rng.Intn(len(outsiders))], []int{c08VForeign, c08VGarbage, c08VAbsent}[v.rng.Intn(3)], ids[v.rng.Intn(n)], []int{c08MAbsent, c08MGarbage, c08MForeign}[v.rng.Intn(3)]
 				}
 			} else if !agg && v.rng.Intn(3) == 0 {
 				m.MKind = c08MAbsent // the simple rule's own messages carry no message signature
@@ -983,6 +1368,6 @@ func TestVerifC08(t *testing.T) {
 		c08RunSync(v, syn, w, c0, ms, "random")
 	}
 
-	v.Close("coll: every add/deleteOldViews sequence over {3 ids x 2 views, 2 deletes} up to length 4 (5 thorough) for n=4, quorum boundaries n=1..13, random sequences; " +
-		"sync: every sequence of length 3 (4 thorough) over 9-10 honest/Byzantine timeouts for n=4 under both rules, boundary scenarios for n in {1,2,3,4,7} x receiver behind/at/ahead, random sequences of up to 12 timeouts over 3 views (ECDSA, EdDSA)")
+	v.Close("coll: every add/deleteOldViews sequence over {3 ids x 2 views, 2 deletes} up to length 4 (5 thorough) for n=4 and every length-4 (5) sequence over {2 sparse ids x 3 views} for n=2, quorum boundaries n=1..13, membership growing between adds, random sequences with sparse/large ids and views up to 2^64-1; " +
+		"sync: every sequence of length 3 (4 thorough) over 9-10 honest/Byzantine timeouts for n=4 under both rules, boundary scenarios for n in {1,2,3,4,7} x receiver behind/at/ahead x {contiguous ids, ids up to 2^32-1 agreeing in the low bytes} x {ECDSA, EdDSA, BLS12} x cache off/on, own local timeouts, lagging-replica walks over 3-4 views, membership growth mid-run, failing NewView sends, random sequences of up to 12 timeouts over 3 views")
 }
